@@ -27,13 +27,17 @@ type Linter struct {
 	conf       *config.LinterConfig
 	// names of the module files whose inclusion is being expanded, outermost first
 	includeStack []string
+	// for the statements taken from a module: the modules they were included through.
+	// Includes nested in their blocks are expanded later, when the block is linted.
+	includedFrom map[ast.Statement][]string
 }
 
 func New(c *config.LinterConfig, opts ...optionFunc) *Linter {
 	l := &Linter{
-		lexers: make(map[string]*lexer.Lexer),
-		ignore: &ignore{},
-		conf:   c,
+		lexers:       make(map[string]*lexer.Lexer),
+		ignore:       &ignore{},
+		conf:         c,
+		includedFrom: make(map[ast.Statement][]string),
 	}
 	for i := range opts {
 		opts[i](l)
@@ -489,7 +493,27 @@ func (l *Linter) resolveFileInclusion(
 	} else {
 		statements = l.loadSnippetVCL(module.Name, module.Data)
 	}
-	return l.resolveIncludeStatements(statements, ctx, isRoot)
+	resolved := l.resolveIncludeStatements(statements, ctx, isRoot)
+	origin := slices.Clone(l.includeStack)
+	for _, s := range resolved {
+		if _, ok := l.includedFrom[s]; !ok {
+			l.includedFrom[s] = origin
+		}
+	}
+	return resolved
+}
+
+// enterIncluded switches to the include stack of the module the statement was taken from,
+// so that an include nested in one of its blocks still sees the modules being expanded.
+// The returned function switches back.
+func (l *Linter) enterIncluded(s ast.Statement) func() {
+	stack, ok := l.includedFrom[s]
+	if !ok {
+		return func() {}
+	}
+	saved := l.includeStack
+	l.includeStack = stack
+	return func() { l.includeStack = saved }
 }
 
 //nolint:gocognit,funlen
